@@ -535,11 +535,10 @@ Lemma Lloc_same_pc P th th' :
   Lloc P th -> Lloc P th'.
 Proof. unfold Lloc. intros -> -> -> -> ->. auto. Qed.
 
-Lemma inv_init P : Inv P (pinit P).
+Lemma inv_init P : pvalid P -> Inv P (pinit P).
 Proof.
+  intros (V1 & V2 & V3 & V4 & V5).
   constructor; cbn; try reflexivity; try lia; try constructor.
-  - intros H; discriminate.
-  - intros H; discriminate.
 Qed.
 
 Lemma inv_step P c e c' : pvalid P -> Inv P c -> pstep_cfg c e = Some c' -> Inv P c'.
@@ -566,21 +565,19 @@ Proof.
   - (* PFire *)
     destruct Hs as (th & Hl & _ & ->).
     destruct (is_parked th) eqn:Ep.
-    + apply is_parked_pc in Ep. apply (inv_update P c t th); auto.
-      * cbn. rewrite Ep. reflexivity.
-      * unfold pending. cbn. rewrite Ep. reflexivity.
-      * unfold Lloc. cbn. exact I.
+    + apply is_parked_pc in Ep. apply (inv_update P c t th); auto;
+        [cbn; rewrite Ep; reflexivity | unfold pending; cbn; rewrite Ep; reflexivity | unfold Lloc; cbn; exact I].
     + apply (inv_update P c t th); auto.
       eapply Lloc_same_pc; [| | | | |exact (tall_lookup _ _ _ _ (v_loc _ _ HI) Hl)]; reflexivity.
   - (* PFinish *)
     destruct Hs as (th & obs & Hl & Epc & Ha).
     eapply (inv_frame P c t th _ _ _ _ _ _ HI Hl Ha); try reflexivity.
-    + cbn. rewrite Epc. reflexivity.
-    + unfold pending. cbn. rewrite Epc. reflexivity.
-    + unfold Lloc. cbn. exact I.
+    all: try (cbn; rewrite Epc; reflexivity).
+    all: try (unfold pending; cbn; rewrite Epc; reflexivity).
+    all: try (unfold Lloc; cbn; exact I).
 Qed.
 
 Theorem inv_reach P c : pvalid P -> preach P c -> Inv P c.
 Proof.
-  intros HV. apply preach_ind; [apply inv_init|]. intros c0 e c1 H. apply inv_step; assumption.
+  intros HV. apply preach_ind; [apply inv_init, HV|]. intros c0 e c1 H. apply inv_step; assumption.
 Qed.
